@@ -178,6 +178,10 @@ def standard_plan(ctx, visitor, depths_quick=(8, 7, 6, 5, 5), depths_thorough=(1
         for sp in ("readonly", "tuple", "column", "npscalar"):
             tasks += list(tree_tasks(dict(N=N, r=2.0, box="B1", spell=sp), "A013", depths[N - 1] - 1, visitor, split=2))
             tasks += list(tree_tasks(dict(N=N, r=3.0, box="B1", spell=sp), "Am201", depths[N - 1] - 2, visitor, split=2, batch=3))
+    # whole-number bounds of integer type (int64 arrays / lists of Python ints), every dimension including N = 1
+    for N in (((1, 2, 3) if th else (1, 2)) if extras else ()):
+        tasks += list(tree_tasks(dict(N=N, r=2.0, box="Z"), "A013", depths[N - 1] - 1, visitor, split=2))
+        tasks += list(tree_tasks(dict(N=N, r=3.0, box="Z", spell="intlist"), "Am201", depths[N - 1] - 2, visitor, split=2, batch=2))
     # the objective value left as a 0-d array in the holder; a read-only listener that walks the search information partly
     for N in (((1, 2, 3) if th else (1, 2)) if extras else ()):
         tasks += list(tree_tasks(dict(N=N, r=2.0, box=boxes[0], holder="zerod"), "A013", depths[N - 1] - 1, visitor, split=2))
